@@ -54,6 +54,60 @@ TRUSTED_BASE = ["tools/gen_safe.py (builders of well-formed files of the nine fo
 FMT_TIMEOUT = 20
 
 
+def run_impl(exe, lines, timeout=60, shards=None, max_timeouts=2, fsize_mb=256):
+    """nvlib.run_lines for a tree that may hang: a shard gives up after `max_timeouts` lines that did not return (the rest is
+    answered SKIPPED), and the harness may not write more than `fsize_mb` (a print loop that never ends dies with SIGXFSZ
+    instead of filling the memory with captured output)."""
+    import resource
+    lines = list(lines)
+    if not lines:
+        return []
+    shards = shards or min(nvlib.NPROC, max(1, len(lines) // 150))
+    size = (len(lines) + shards - 1) // shards
+    chunks = [lines[i:i + size] for i in range(0, len(lines), size)]
+
+    def limit():
+        resource.setrlimit(resource.RLIMIT_FSIZE, (fsize_mb << 20, fsize_mb << 20))
+
+    def work(chunk):
+        out, pos, hangs = [], 0, 0
+        while pos < len(chunk):
+            data = ("\n".join(chunk[pos:]) + "\n").encode("latin-1")
+            try:
+                r = subprocess.run([exe], input=data, stdout=subprocess.PIPE, stderr=subprocess.PIPE, env=nvlib.SAN_ENV,
+                                   timeout=timeout, preexec_fn=limit)
+                rc, so, se = r.returncode, r.stdout, r.stderr
+            except subprocess.TimeoutExpired as e:
+                rc, so, se = -999, e.stdout or b"", b"timeout"
+            got = so.decode("latin-1").split("\n")
+            if got and got[-1] == "":
+                got.pop()
+            if rc != 0 and so and not so.endswith(b"\n") and got:
+                got.pop()
+            got = got[:len(chunk) - pos]
+            out.extend(got)
+            pos += len(got)
+            if pos < len(chunk):
+                if rc == 0:
+                    out.extend(["MISSING"] * (len(chunk) - pos))
+                    break
+                tail = se.decode("latin-1", errors="replace")
+                m = re.search(r"(ERROR: AddressSanitizer: [^\n]*|runtime error: [^\n]*|SUMMARY: [^\n]*)", tail)
+                why = m.group(1) if m else ("output-limit (SIGXFSZ)" if rc == -25 else tail.strip()[-200:])
+                out.append("DIED rc=%d %s" % (rc, why.replace("\n", " ")))
+                pos += 1
+                if rc in (-999, -25):
+                    hangs += 1
+                    if hangs >= max_timeouts:
+                        out.extend(["SKIPPED after %d lines that did not return" % hangs] * (len(chunk) - pos))
+                        break
+        return out
+
+    with ThreadPoolExecutor(len(chunks)) as ex:
+        res = list(ex.map(work, chunks))
+    return [x for r in res for x in r]
+
+
 def sz(ctx, q, t):
     """stream size: exactly q in the quick tier, t in the thorough tier (no tier multiplier)"""
     return q if ctx.quick() else t
@@ -132,13 +186,16 @@ def correspondence(ctx, corr):
     for l in cl + wl:
         lines.append(l)
         tags.append(("cmd", l.split(" ")[0], True))
-    h = nvlib.run_lines(ctx.harness, lines, timeout=300)
+    h = run_impl(ctx.harness, lines, timeout=60)
     d = nvlib.run_lines(ctx.driver, lines, env=dict(os.environ), timeout=600)
     ctx.notes["corr_lines"], ctx.notes["corr_impl"], ctx.notes["corr_tags"] = lines, h, tags
     st = collections.Counter()
     nontrivial = set()
     for l, a, b, (kind, what, compare) in zip(lines, h, d, tags):
         st[kind + ":" + what] += 1
+        if a.startswith("SKIPPED"):
+            st["impl-skipped"] += 1
+            continue
         if a.startswith("DIED") or a.startswith("MISSING"):
             st["impl-died"] += 1
             corr["disagreements"].append({"line": l[:3000], "impl": a[:600], "model": b[:600]})
@@ -173,7 +230,7 @@ def correspondence(ctx, corr):
 
 def classify(r, allowed=(0, 1)):
     """None if the run is fine, else a short reason"""
-    if r["rc"] == -999:
+    if r["rc"] in (-999, -25):          # no end within the time limit / output limit (SIGXFSZ): does not terminate
         return "timeout"
     blob = r["err"][-4000:]
     m = re.search(r"AddressSanitizer: ([a-zA-Z-]+)|runtime error: ([^\n]{0,80})|AddressSanitizer:? ?(DEADLYSIGNAL)", blob)
@@ -186,11 +243,30 @@ def classify(r, allowed=(0, 1)):
     return None
 
 
+def run_proc(exe, args, stdin_text="", timeout=60, cwd=None, out_mb=128):
+    """nvlib.run_util with the output in a file of at most `out_mb` MB: a process that prints for ever is killed by SIGXFSZ
+    (reported as rc -25) instead of filling this process's memory"""
+    import resource, tempfile
+
+    def limit():
+        resource.setrlimit(resource.RLIMIT_FSIZE, (out_mb << 20, out_mb << 20))
+    with tempfile.TemporaryFile(dir=cwd) as fo:
+        try:
+            r = subprocess.run([exe] + list(args), input=stdin_text.encode("latin-1"), stdout=fo, stderr=subprocess.PIPE,
+                               env=nvlib.SAN_ENV, timeout=timeout, cwd=cwd, preexec_fn=limit)
+            rc, err = r.returncode, r.stderr.decode("latin-1")
+        except subprocess.TimeoutExpired:
+            rc, err = -999, "timeout"
+        fo.seek(0)
+        out = fo.read(4 << 20).decode("latin-1")
+    return {"rc": rc, "out": out, "err": err}
+
+
 def run_many(jobs, workers=8):
     """jobs: list of (key, exe, args, stdin, timeout, cwd) -> {key: result}"""
     def one(j):
         key, exe, args, text, timeout, cwd = j
-        return key, nvlib.run_util(exe, args, text, timeout=timeout, cwd=cwd)
+        return key, run_proc(exe, args, text, timeout=timeout, cwd=cwd)
     with ThreadPoolExecutor(workers) as ex:
         return dict(ex.map(one, jobs))
 
@@ -230,7 +306,7 @@ def command_script(rng, n_ops):
 def minimise(util, args, lines, reason, cwd):
     """smallest sub-script (single command if possible) that still fails the same way"""
     for l in lines:
-        r = nvlib.run_util(util, args, l + "\nquit\n", timeout=FMT_TIMEOUT, cwd=cwd)
+        r = run_proc(util, args, l + "\nquit\n", timeout=FMT_TIMEOUT, cwd=cwd)
         c = classify(r)
         if c and c.split(":")[0] == reason.split(":")[0]:
             return [l], c
@@ -238,7 +314,7 @@ def minimise(util, args, lines, reason, cwd):
     while len(lo) > 1:
         half = len(lo) // 2
         for part in (lo[:half], lo[half:]):
-            r = nvlib.run_util(util, args, "\n".join(part) + "\nquit\n", timeout=FMT_TIMEOUT, cwd=cwd)
+            r = run_proc(util, args, "\n".join(part) + "\nquit\n", timeout=FMT_TIMEOUT, cwd=cwd)
             c = classify(r)
             if c and c.split(":")[0] == reason.split(":")[0]:
                 lo = part
@@ -265,13 +341,13 @@ def oracle(ctx, orc, focus=None):
     # 1. in-process: every answer of the real readers / command functions; a dead harness is a crash or a hang
     if "corr_impl" not in ctx.notes:
         lines = [srd_line(ctx, f, e, d, 0x100 if f == "bin" else 0) for f, e, d, _ in cases] + G.cmd_lines(rng, sz(ctx, 1500, 8000))
-        ctx.notes["corr_lines"], ctx.notes["corr_impl"] = lines, nvlib.run_lines(ctx.harness, lines, timeout=300)
+        ctx.notes["corr_lines"], ctx.notes["corr_impl"] = lines, run_impl(ctx.harness, lines, timeout=60)
     seen = set()
     for l, a in zip(ctx.notes["corr_lines"], ctx.notes["corr_impl"]):
         orc["cases"] += 1
         if a.startswith("DIED") or a.startswith("MISSING"):
             parts = l.split(" ")
-            why = "timeout" if "timeout" in a else re.sub(r"0x[0-9a-f]+|[0-9]+", "N", a[5:60]).strip().replace(" ", "_")
+            why = "timeout" if ("timeout" in a or "SIGXFSZ" in a) else re.sub(r"0x[0-9a-f]+|[0-9]+", "N", a[5:60]).strip().replace(" ", "_")
             sig = "C17:inproc:%s:%s:%s" % (parts[0], parts[1] if parts[0] == "srd" else "-", why)
             if sig not in seen:
                 seen.add(sig)
